@@ -474,8 +474,9 @@ theorem aad_exact {κ α : Type} (n : Nat) (pick : Nat → Nat → α → Nat) (
   simp only [aadOutcome, hi, hok]
   rw [splitter_drops_nothing (inputs d) (evs d) (hev d)]
 
-/-- **aad_error_fails** — an `Err` answer of any shard's input stream (wherever it sits among the stalls) that
-is reached before the size hint is exhausted... in fact ANY failing send loop: nobody returns `Ok`. -/
+/-- **aad_error_fails** — if the send loop of shard `s` fails on what the splitter hands it (an `Err` answer of its input
+stream, wherever it sits among the stalls — `err_answer_fails` — or more items than the size hint), `s` returns `Err`
+and NO shard returns `Ok`. -/
 theorem aad_error_fails {κ α : Type} (n : Nat) (pick : Nat → Nat → α → Nat) (evs : Nat → List (Ev κ α))
     (hints : Nat → Nat) (s : Nat) (hs : s < n) (hf : ownFails (aadItems evs) hints s = true) :
     aadOutcome n pick evs hints s = .err ∧ ∀ d kept tags, aadOutcome n pick evs hints d ≠ .ok kept tags := by
